@@ -832,7 +832,11 @@
 		quiet(); self_check();
 		let mut t = Tally::new("jar_remap__colliding_class_names");
 		let classes = four_classes();
-		for set in 1u32..16 { for tb in &all_class_tables() { for form in [Form::ParsedBytes, Form::ZipStored] {
+		// every table of the other tests, plus: two classes sent to one new name, a class sent onto a class of the default package, an inner class sent onto a top-level class
+		let mut tables = all_class_tables();
+		tables.extend([table(&[("p/A", "p/Z"), ("p/B", "p/Z")]), table(&[("p/A", "Root")]), table(&[("p/A$In", "p/B")]), table(&[("p/A", "p/Z"), ("p/B", "p/Z"), ("p/A$In", "p/Z")])]);
+		let (mut lost, mut refused) = (0u32, 0u32);
+		for set in 1u32..16 { for tb in &tables { for form in [Form::ParsedBytes, Form::ZipStored] {
 			let mut j: MJar = Vec::new();
 			for (i, c) in classes.iter().enumerate() { if set & (1 << i) != 0 { j.push(class_entry(c.clone())); } }
 			j.push(("p/A.txt".into(), res("p/A")));
@@ -844,13 +848,15 @@
 			t.case(true);
 			match real_remap(&j, &r, form) {
 				Out::Panic => t.fail(input, "remap panicked"),
-				Out::Err(_) => {},
+				Out::Err(_) => refused += 1,
 				Out::Ok(out) => {
+					lost += 1;
 					let names: Vec<&String> = out.entries.keys().collect();
 					t.fail(input, &format!("two class entries are renamed to {coll:?}; remap returns Ok with {} entries {names:?} for {} entries of the input: a class is silently lost", names.len(), j.len()));
 				},
 			}
 		}}}
+		println!("INFO jar_remap__colliding_class_names: {refused} case(s) refused, {lost} case(s) returned Ok without one of the classes");
 		t.finish();
 	}
 
@@ -862,6 +868,7 @@
 		quiet(); self_check();
 		let mut t = Tally::new("jar_remap__multi_release_class_entries");
 		let tables = [table(&[]), table(&[("p/A", "p/X")]), table(&[("p/A", "q/r/A"), ("p/B", "p/Y")]), table(&[("p/B", "p/Y")])];
+		let mut misplaced = 0u32;
 		for with_base in [true, false] { for tb in &tables { for form in FORMS {
 			let mut v9 = class_a(); v9.major = 53; v9.fields.pop();
 			let mut j: MJar = vec![("META-INF/MANIFEST.MF".into(), res("Manifest-Version: 1.0\r\nMulti-Release: true\r\n\r\n"))];
@@ -886,11 +893,13 @@
 						exp[last].0 = stored[0].clone();
 						if let Err(why) = check_result(&exp, out) { t.fail(input, &why); }
 					} else {
+						misplaced += 1;
 						t.fail(input, &format!("the Java 9 version of class p/A, now class {new_name}, is stored under {stored:?} instead of {prefixed}{}", if with_base { String::new() } else { format!(" (or {literal})") }));
 					}
 				},
 			}
 		}}}
+		println!("INFO jar_remap__multi_release_class_entries: {misplaced} case(s) with the versioned class entry under a name that is not the name of its class");
 		t.finish();
 	}
 
